@@ -5,6 +5,7 @@ package main
 
 import (
 	"fmt"
+	"go/types"
 	"strings"
 )
 
@@ -338,20 +339,35 @@ func ruleSmallContracts(rule string, which ...string) func(p *Prog, r *Result) {
 					}
 					name := p.FuncName(fn)
 					base := strings.TrimPrefix(name, "bkl.")
-					if !(strings.HasPrefix(base, "pop") || strings.HasPrefix(base, "has") || strings.HasPrefix(base, "getMap") || strings.HasPrefix(base, "getList")) || strings.Contains(base, ".") {
-						continue
-					}
-					if !isRefType(fn.Params[0].Type()) {
+					if !(strings.HasPrefix(base, "pop") || strings.HasPrefix(base, "has") || strings.HasPrefix(base, "get")) || strings.Contains(base, ".") {
 						continue
 					}
 					if _, pinned := loadAnchors().Params[name]; !pinned {
 						continue // a helper added later: its contract is not one the rules rely on
 					}
-					n++
-					if mut, why := o.Mut(fn, 0); mut {
-						r.Fail(rule, name+" / leaves its argument as it found it", p.Pos(fn.Pos()), "the helper writes into the container it is handed ("+why+"): popping a marker or directive key changes the caller's tree (a referenced subtree, the body shared by the copies of a $repeat, a document kept by the parser)")
-					} else {
-						r.OK(rule, name+" / leaves its argument as it found it", p.Pos(fn.Pos()), "no write reaches the first parameter (mutation summary)")
+					// the lookup family (get, getPath*, getCross*, getWithVar ...) reads every argument: the reference's own
+					// argument map is part of the document too
+					allParams := strings.HasPrefix(base, "get") && !strings.HasPrefix(base, "getMap") && !strings.HasPrefix(base, "getList")
+					for i, q := range fn.Params {
+						if (i > 0 && !allParams) || !isRefType(q.Type()) {
+							continue
+						}
+						if pt, isPtr := q.Type().Underlying().(*types.Pointer); isPtr {
+							if _, isStruct := pt.Elem().Underlying().(*types.Struct); isStruct && i > 0 {
+								// documents and contexts handed along: what may be written through them is other rules' business
+								continue
+							}
+						}
+						n++
+						key := name + " / leaves its argument as it found it"
+						if i > 0 {
+							key = fmt.Sprintf("%s / leaves argument %s as it found it", name, p.ParamName(q))
+						}
+						if mut, why := o.Mut(fn, i); mut {
+							r.Fail(rule, key, p.Pos(fn.Pos()), "the helper writes into the container it is handed ("+why+"): popping a marker or directive key changes the caller's tree (a referenced subtree, the argument of a reference, the body shared by the copies of a $repeat, a document kept by the parser)")
+						} else {
+							r.OK(rule, key, p.Pos(fn.Pos()), "no write reaches the parameter (mutation summary)")
+						}
 					}
 				}
 				r.Floor(rule, "pop/has/get helpers examined", n, 8)
